@@ -26,6 +26,10 @@ pub struct Caller {
     /// owner task are dropped) at the k-th time its call is found pending
     #[serde(default)]
     pub cancel_after: Option<u32>,
+    /// single-threaded mode only: the caller's task is aborted this many simulated ms after the start (its `work`
+    /// future is dropped; the runtime — and with it a spawned owner task — lives on)
+    #[serde(default)]
+    pub abort_at_ms: Option<u64>,
 }
 
 #[derive(Clone, Debug, Serialize, Deserialize, PartialEq)]
@@ -55,6 +59,8 @@ struct Log {
     result: Vec<Option<(Res, bool)>>,
     /// event number at which a caller's runtime was shut down mid-call
     cancelled: Vec<Option<u64>>,
+    /// event number at which a caller's task was aborted before it had returned (its runtime lives on)
+    aborted: Vec<Option<u64>>,
 }
 
 #[derive(Clone, Debug, PartialEq)]
@@ -140,6 +146,7 @@ impl Engine for FlightEngine {
                 task_ms,
                 outcome: rng.weighted(&[6, 2, 1]) as u8,
                 cancel_after: None,
+                abort_at_ms: None,
             });
         }
         let p = Plan {
@@ -158,6 +165,14 @@ impl Engine for FlightEngine {
             let i = rng.usize_below(p.callers.len());
             p.callers[i].cancel_after = Some(1 + rng.below(4) as u32);
         }
+        if !p.mt && p.callers.len() >= 2 && rng.chance(1, 5) {
+            // fault: one caller is cancelled (its task aborted) around its call; no hook-only yields in such runs, so
+            // that the call can only be dropped where the shipped code has an await
+            let i = rng.usize_below(p.callers.len());
+            let c = &p.callers[i];
+            p.callers[i].abort_at_ms = Some(c.arrival_ms + rng.range(0, 2 * c.task_ms + 3));
+            p.yield_mode = 0;
+        }
         serde_json::to_value(p).unwrap()
     }
 
@@ -173,6 +188,7 @@ impl Engine for FlightEngine {
             ret: vec![None; n],
             result: vec![None; n],
             cancelled: vec![None; n],
+            aborted: vec![None; n],
             ..Default::default()
         }));
         let (hung, sim_ms) = if p.mt {
@@ -191,7 +207,7 @@ impl Engine for FlightEngine {
     }
 
     fn rule(&self, _focus: &str) -> String {
-        "Each run: 1-8 callers over 1-3 keys with seeded arrival times and task durations, tasks that succeed with a unique token, fail with a unique message, or panic. Two execution modes: (single-threaded) a paused-clock current-thread runtime where at each of the five guarded yield points inside Group::work the schedule stream decides whether the caller yields or sleeps; (multi-threaded, one run in three) every caller is an OS thread with its own runtime under the cooperative one-thread-at-a-time scheduler, which switches at those yield points, at lock-aware points inside Call::{get_future,complete} that are live only where the result lock is not held, and whenever a caller's future is pending; in one multi-threaded run in three one caller's runtime is shut down at the 1st..4th time its call is found pending (the call and, for an owner, its spawned task are dropped: every other caller must still return, with the dropped-owner notification at worst); a run in which every remaining caller stays pending is a hang. Non-trivial: at least one caller received another caller's outcome (a waiter overlapped a flight) and at least one schedule decision fired. Distinct: hash of the per-caller (invoke, return, task start) event numbers, key and outcome kind.".into()
+        "Each run: 1-8 callers over 1-3 keys with seeded arrival times and task durations, tasks that succeed with a unique token, fail with a unique message, or panic. Two execution modes: (single-threaded) a paused-clock current-thread runtime where at each of the five guarded yield points inside Group::work the schedule stream decides whether the caller yields or sleeps; (multi-threaded, one run in three) every caller is an OS thread with its own runtime under the cooperative one-thread-at-a-time scheduler, which switches at those yield points, at lock-aware points inside Call::{get_future,complete} that are live only where the result lock is not held, and whenever a caller's future is pending; in one multi-threaded run in three one caller's runtime is shut down at the 1st..4th time its call is found pending (the call and, for an owner, its spawned task are dropped: every other caller must still return, with the dropped-owner notification at worst); a run in which every remaining caller stays pending is a hang; in one single-threaded run in five one caller's task is aborted around its call (no hook-only yields in such runs): the others must still get the flight's real outcome, since the spawned owner task lives on. Non-trivial: at least one caller received another caller's outcome (a waiter overlapped a flight) and at least one schedule decision fired. Distinct: hash of the per-caller (invoke, return, task start) event numbers, key and outcome kind.".into()
     }
     fn real_vs_stub(&self) -> Value {
         json!({"real": ["utils::singleflight::{Group, Call, OwnerTask}", "tokio Mutex/Notify/JoinHandle, parking_lot RwLock"], "simulated": ["arrival times, task durations (paused clock)", "scheduling between lock sections (H5 yield points)", "multi-threaded mode: OS-thread interleaving at H5 points, lock-aware points and pending polls", "shutdown of a caller's runtime mid-call"], "limit": "interleavings at lock-section granularity plus wherever a lock-aware point finds the result lock free; not at atomic-instruction granularity"})
@@ -272,6 +288,24 @@ fn run_st(p: &Plan, log: Arc<Mutex<Log>>) -> (bool, u64) {
                     l.result[i] = Some((r, owner));
                 }));
             }
+            // cancellation of callers: abort the caller's task at the drawn time if it has not returned by then
+            for (i, c) in callers.iter().enumerate() {
+                if let Some(at) = c.abort_at_ms {
+                    let ah = hs[i].abort_handle();
+                    let log = log2.clone();
+                    tokio::spawn(async move {
+                        tokio::time::sleep(Duration::from_millis(at)).await;
+                        let mut l = log.lock().unwrap();
+                        if l.ret[i].is_none() {
+                            l.seq += 1;
+                            let s = l.seq;
+                            l.aborted[i] = Some(s);
+                            drop(l);
+                            ah.abort();
+                        }
+                    });
+                }
+            }
             let all = async {
                 for h in hs {
                     let _ = h.await;
@@ -292,7 +326,7 @@ fn check_history(p: &Plan, log: &Arc<Mutex<Log>>, hung: bool, rep: &mut RunRepor
         let l = log.lock().unwrap();
         // C20.e
         for i in 0..n {
-            if l.ret[i].is_none() && l.cancelled[i].is_none() {
+            if l.ret[i].is_none() && l.cancelled[i].is_none() && l.aborted[i].is_none() {
                 rep.violate("C20.e", "caller-never-returned", format!("caller {i} (key {}) never returned; hung={hung}", p.callers[i].key));
             }
         }
@@ -405,7 +439,7 @@ fn check_history(p: &Plan, log: &Arc<Mutex<Log>>, hung: bool, rep: &mut RunRepor
             }
         }
         let owners = l.result.iter().flatten().filter(|r| r.1).count()
-            + (0..n).filter(|&i| l.cancelled[i].is_some() && l.result[i].is_none() && l.task_runs[i] > 0).count();
+            + (0..n).filter(|&i| (l.cancelled[i].is_some() || l.aborted[i].is_some()) && l.result[i].is_none() && l.task_runs[i] > 0).count();
         let ran = l.task_runs.iter().filter(|&&r| r > 0).count();
         if owners != ran && !hung {
             rep.violate("C20.a", "flights-vs-tasks", format!("{owners} owning calls but {ran} tasks executed"));
@@ -415,6 +449,11 @@ fn check_history(p: &Plan, log: &Arc<Mutex<Log>>, hung: bool, rep: &mut RunRepor
         rep.count("fault:yield_points_fired", l.yields_fired);
         rep.count("fault:task_error", p.callers.iter().enumerate().filter(|(i, c)| c.outcome == 1 && l.task_runs[*i] > 0).count() as u64);
         rep.count("fault:task_panic", p.callers.iter().enumerate().filter(|(i, c)| c.outcome == 2 && l.task_runs[*i] > 0).count() as u64);
+        rep.count("fault:caller_task_aborted", l.aborted.iter().flatten().count() as u64);
+        rep.count(
+            "probe:owner_aborted_while_a_waiter_was_joined",
+            (0..n).filter(|&i| l.aborted[i].is_some() && l.task_runs[i] > 0 && (0..n).any(|j| j != i && p.callers[j].key == p.callers[i].key && matches!(&l.result[j], Some((_, false))))).count() as u64,
+        );
         rep.count("fault:runtime_shutdown_mid_call", l.cancelled.iter().flatten().count() as u64);
         rep.count(
             "probe:owner_task_dropped_unfinished",
@@ -430,7 +469,7 @@ fn check_history(p: &Plan, log: &Arc<Mutex<Log>>, hung: bool, rep: &mut RunRepor
             words.push(p.callers[i].key as u64 * 4 + p.callers[i].outcome as u64);
         }
         rep.signature = mix(&words);
-        rep.sample = Some(json!({"callers": p.callers.iter().map(|c| json!([c.key, c.arrival_ms, c.task_ms, c.outcome, c.cancel_after])).collect::<Vec<_>>(), "yield_mode": p.yield_mode, "multi_threaded": p.mt, "flights": ran, "yields_fired": l.yields_fired}));
+        rep.sample = Some(json!({"callers": p.callers.iter().map(|c| json!([c.key, c.arrival_ms, c.task_ms, c.outcome, c.cancel_after, c.abort_at_ms])).collect::<Vec<_>>(), "yield_mode": p.yield_mode, "multi_threaded": p.mt, "flights": ran, "yields_fired": l.yields_fired}));
         rep.count(if p.mt { "runs:multi_threaded" } else { "runs:single_threaded" }, 1);
     }
 }
@@ -475,6 +514,11 @@ fn shrink_plan(plan: &Value) -> Vec<Value> {
         if c.cancel_after.is_some() {
             let mut q = p.clone();
             q.callers[i].cancel_after = None;
+            out.push(q);
+        }
+        if c.abort_at_ms.is_some() {
+            let mut q = p.clone();
+            q.callers[i].abort_at_ms = None;
             out.push(q);
         }
     }
